@@ -77,15 +77,40 @@ theorem exprOK_posOK {e : Expression} (h : ExprOK e) : PosOK e := h.1
     PosOK (.Operation (.mk p op x y)) ↔ PosOK x := by simp [PosOK, exprPos]
 @[simp] theorem posOK_list (l : List Expression) : PosOK (.List l) ↔ False := by simp [PosOK, exprPos]
 
+/-- a function declaration whose name is an identifier token of the source and whose documentation is made
+    of comment tokens of the source -/
+@[simp] def FuncDeclReal (src : Array Char) (d : FuncDecl) : Prop :=
+  RealIdent src d.name ∧ ∀ c ∈ d.docs, RealComment src c
+
+/-- a type spec whose name is an identifier token of the source and whose documentation is made of source comments -/
+@[simp] def TypeSpecReal (src : Array Char) : TypeSpec → Prop
+  | .mk docs _ name _ _ => RealIdent src name ∧ ∀ c ∈ docs, RealComment src c
+
+/-- a var spec all of whose names are identifier tokens of the source, documented by source comments -/
+@[simp] def VarSpecReal (src : Array Char) : VarSpec → Prop
+  | .mk docs names _ _ => (∀ id ∈ names, RealIdent src id) ∧ ∀ c ∈ docs, RealComment src c
+
+@[simp] def ConstSpecReal (src : Array Char) : ConstSpec → Prop
+  | .mk docs names _ _ => (∀ id ∈ names, RealIdent src id) ∧ ∀ c ∈ docs, RealComment src c
+
+@[simp] def DeclVarReal (src : Array Char) : DeclVarSpec → Prop
+  | .mk docs _ _ specs => (∀ c ∈ docs, RealComment src c) ∧ ∀ sp ∈ specs, VarSpecReal src sp
+
+@[simp] def DeclConstReal (src : Array Char) : DeclConstSpec → Prop
+  | .mk docs _ _ specs => (∀ c ∈ docs, RealComment src c) ∧ ∀ sp ∈ specs, ConstSpecReal src sp
+
+@[simp] def DeclTypeReal (src : Array Char) : DeclTypeSpec → Prop
+  | .mk docs _ _ specs => (∀ c ∈ docs, RealComment src c) ∧ ∀ sp ∈ specs, TypeSpecReal src sp
+
 /-- the specification of a table of productions -/
 class TblOK (src : Array Char) (r : Tbl) : Prop where
-  parseFuncDecl : T src Tr r.parseFuncDecl (fun _ _ => True)
-  parseDeclVar : T src Tr r.parseDeclVar (fun _ _ => True)
-  parseDeclType : T src Tr r.parseDeclType (fun _ _ => True)
-  parseDeclConst : T src Tr r.parseDeclConst (fun _ _ => True)
-  parseTypeSpec : T src Tr r.parseTypeSpec (fun _ _ => True)
-  parseVarSpec : T src Tr r.parseVarSpec (fun _ _ => True)
-  parseConstSpec : ∀ i, T src Tr (r.parseConstSpec i) (fun _ _ => True)
+  parseFuncDecl : T src Tr r.parseFuncDecl (fun d _ => FuncDeclReal src d)
+  parseDeclVar : T src Tr r.parseDeclVar (fun d _ => DeclVarReal src d)
+  parseDeclType : T src Tr r.parseDeclType (fun d _ => DeclTypeReal src d)
+  parseDeclConst : T src Tr r.parseDeclConst (fun d _ => DeclConstReal src d)
+  parseTypeSpec : T src Tr r.parseTypeSpec (fun sp _ => TypeSpecReal src sp)
+  parseVarSpec : T src Tr r.parseVarSpec (fun sp _ => VarSpecReal src sp)
+  parseConstSpec : ∀ i, T src Tr (r.parseConstSpec i) (fun sp _ => ConstSpecReal src sp)
   parseTypeList : T src Tr r.parseTypeList (fun l _ => ∀ e ∈ l, ExprOK e)
   type_ : T src Tr r.type_ (fun e _ => ExprOK e)
   typeList : ∀ b, T src Tr (r.typeList b) (fun _ _ => True)
